@@ -368,7 +368,11 @@ def _save_and_judge(res, font, cfg, full, h, scratch, stage):
                         i = next((i for i, (a, b) in enumerate(zip(got, want)) if a != b), None)
                         _fail(res, "stored-metrics-differ-from-saved-object:" + mt, "%s/%s decode to %s for glyph %s, the saved object has %s" % (hd, mt, got[i] if i is not None else len(got), i, want[i] if i is not None else len(want)) + where, table=mt)
     # derived fields
-    if not errs and kind in ("sfnt", "woff") and full and cfg["recalcBBoxes"] and all(t in tabs for t in ("glyf", "loca", "head", "maxp", "hhea", "hmtx")):
+    # (everything decoded, or at least the outlines of a canonical source: with recalcBBoxes every glyph is
+    # then recalculated on save - also composites nobody looked at whose base glyph was edited - and the
+    # tables holding font-wide extents are pulled in as dependencies)
+    glyf_loaded = "glyf" in font and font.isLoaded("glyf") and not h.get("original")
+    if not errs and kind in ("sfnt", "woff") and (full or glyf_loaded) and cfg["recalcBBoxes"] and all(t in tabs for t in ("glyf", "loca", "head", "maxp", "hhea", "hmtx")):
         try:
             derr = oglyf.derived(tabs)
         except Exception as e:
